@@ -104,7 +104,7 @@ func Perturb(valid []byte, asn1 bool) *rapid.Generator[Perturbed] {
 			case "0x80":
 				newLen = []byte{0x80}
 			case "huge":
-				newLen = []byte{0x84, 0xff, 0xff, 0xff, 0xff}
+				newLen = rapid.SampledFrom(HugeLens).Draw(t, "hugelen")
 			case "long0":
 				newLen = []byte{0x82, 0x00, byte(tl.Len)}
 			}
@@ -113,6 +113,20 @@ func Perturb(valid []byte, asn1 bool) *rapid.Generator[Perturbed] {
 		}
 		return Perturbed{out, kind, ""}
 	})
+}
+
+// HugeLens: long-form DER/BER lengths at the edges of 32- and 64-bit arithmetic (offset + length must not wrap).
+var HugeLens = [][]byte{
+	{0x84, 0xff, 0xff, 0xff, 0xff},
+	{0x84, 0x7f, 0xff, 0xff, 0xff},
+	{0x84, 0x80, 0x00, 0x00, 0x00},
+	{0x85, 0x01, 0x00, 0x00, 0x00, 0x00},
+	{0x87, 0xff, 0xff, 0xff, 0xff, 0xff, 0xff, 0xff},
+	{0x88, 0x7f, 0xff, 0xff, 0xff, 0xff, 0xff, 0xff, 0xff},
+	{0x88, 0x7f, 0xff, 0xff, 0xff, 0xff, 0xff, 0xff, 0x00},
+	{0x88, 0x80, 0x00, 0x00, 0x00, 0x00, 0x00, 0x00, 0x00},
+	{0x88, 0xff, 0xff, 0xff, 0xff, 0xff, 0xff, 0xff, 0xff},
+	{0x89, 0x01, 0x00, 0x00, 0x00, 0x00, 0x00, 0x00, 0x00, 0x00},
 }
 
 func max0(n int) int {
